@@ -371,7 +371,7 @@ func oracleC01(used []int) func(x *schedX) {
 				x.viol(prop, x.scn+"/double-spend/"+strings.TrimSuffix(kinds, "+"), "secret of p%d was consumed by %d operations (%s): %s", n, acc, strings.TrimSuffix(kinds, "+"), strings.Join(x.obs, "; "))
 			}
 			if acc >= 1 && final != "SPENT" && final != "PENDING" {
-				x.viol("C01", x.scn+"/consumed-proof-reported-"+final, "p%d was consumed (%s) but the final state check reports %s: %s", n, kinds, final, strings.Join(x.obs, "; "))
+				x.viol("C01,C05,C15", x.scn+"/consumed-proof-reported-"+final, "p%d was consumed (%s) but the final state check reports %s: %s", n, kinds, final, strings.Join(x.obs, "; "))
 			}
 			if acc == 0 && final == "SPENT" {
 				x.viol("C06", "proof-spent-without-successful-operation", "p%d reported SPENT although no operation consumed it: %s", n, strings.Join(x.obs, "; "))
